@@ -443,7 +443,8 @@ def run(tier, seed):
     res.trusted += ['harness/translate.py extracts the literal weight tables from the AST of derivative(); the theorem C20_tables is '
                     're-checked by the kernel against the extracted text on every run',
                     'scipy.linalg.inv / numpy.linalg are external: centralDiffWeights is compared with an exact rational solve done '
-                    'in Lean (which checks its own answer against the moment conditions)']
+                    'in Lean (which checks its own answer against the moment conditions)',
+                    'Model/Deriv.lean (derivative / gradient / hessianMatrix with the regenerated tables) and Model/Gram.lean (gramSchmidOrth) are executable models compared with the implementation at Float (1e-9 .. 1e-12 relative to the conditioning); theorems C20Deriv.lean, C20GramModel.lean are about these models']
     return core.finish(res)
 
 
